@@ -45,6 +45,11 @@ def run(ck):
     c15.per_side_cuts(ck, "C01.6", cuts, impls, LS, RS)
     c15.overlap_test(ck, "C01.7")
     c08._eligibility(ck, {}, None, rule="C01.8", wiring=False)
+    ck.clause("C01.9", "the chainer never places two segments consecutively that overlap by more than half of the shorter one "
+                       "(as C14.2): conflict resolution only trims consecutive chain members")
+    from ..report import RuleView
+    from . import c14
+    c14.join_score(RuleView(ck, {"C14.2": "C01.9"}))
     no_empty_rows(ck)
     resolver_used(ck)
     pairwise_pass(ck, "C01.3")
